@@ -8,7 +8,7 @@ from vlib.worker import exc_key
 PROPERTY = 'C04'
 LEVEL = 'exploration'
 RULE = ('Random envelope skeletons: 1-3 interchanges x 0-3 groups x 0-3 sets, control numbers from a pool of three (forces reuse), declared '
-        'counts in {true, +-1, 0, non-numeric, empty, element absent}, trailer ids right/wrong, random body segments, HL sequences with '
+        'counts in {true, +-1, 0, non-numeric, empty, element absent}, trailer ids right/wrong, random body segments (LS/LE markers closed, unclosed and stray among them), HL sequences with '
         'right/wrong/non-numeric numbers and parents, CLM/LX runs; truncated at a random point in 25% of cases; then 0-3 structural mutations '
         '(delete/duplicate/swap/insert/retag of header and trailer segments); every twentieth input is an envelope soup (header, trailer and body segments in arbitrary order behind a well-formed ISA). vlib/ref_envelope.recount decides proper nesting and the exact '
         '(segment index, level, code) multiset; the real X12Reader (check_837_lx on) is iterated with pop_errors() after every segment and '
@@ -20,7 +20,7 @@ ASSUMPTIONS = ['counts and HL/LX numbers that Python int() accepts but are not c
                'every ISA generated has 16 elements (a shorter ISA is a documented refusal, C07)']
 REQUIRED_COUNTERS = ['proper', 'improper', 'exp:isa:025', 'exp:gs:6', 'exp:st:23', 'exp:st:3', 'exp:st:4', 'exp:gs:4', 'exp:gs:5', 'exp:isa:001',
                      'exp:isa:021', 'exp:eof:st:2', 'exp:eof:gs:3', 'exp:eof:isa:023', 'exp:seg:HL1', 'exp:seg:HL2', 'exp:seg:LX',
-                     'proper-clean', 'segments-fed', 'envelope-soups', 'headers-without-control-number']
+                     'proper-clean', 'segments-fed', 'envelope-soups', 'headers-without-control-number', 'sets-with-unclosed-LS']
 MIN_CASES = {'quick': 15000, 'thorough': 2000000}
 
 CTL = {'isa': ['000000001', '000000002', '000000003'], 'gs': ['1', '2', '3'], 'st': ['0001', '0002', '0003']}
@@ -65,6 +65,7 @@ def gen_proper(rng):
                 hl = 0
                 accepted = []
                 lx = None
+                ls_open = 0
                 for _ in range(rng.randint(0, 7)):
                     r = rng.random()
                     if r < 0.35:
@@ -83,10 +84,17 @@ def gen_proper(rng):
                         lx += 1
                         d = rng.choice([str(lx)] * 5 + [str(lx + 1), '', 'X', '0'])
                         segs.append(('LX', [d]))
+                    elif r < 0.78:
+                        # bounded-loop markers are ordinary body segments for the envelope bookkeeping, closed or not
+                        sid = rng.choice(['LS', 'LS', 'LE'])
+                        segs.append((sid, ['2120']))
+                        ls_open = ls_open + 1 if sid == 'LS' else max(ls_open - 1, 0)
                     else:
                         sid, e = rng.choice(BODY)
                         segs.append((sid, list(e)))
                     n += 1
+                if ls_open:
+                    ctx_count('sets-with-unclosed-LS')
                 n += 1
                 se_id = st if rng.random() < 0.8 else rng.choice(['0009', '', None])
                 if st is None:
